@@ -10,6 +10,7 @@ def check(ctx):
         errors.r14_err_discipline(ctx, include=lambda m: m.name != 'dataflows.cli', floor=28)
     errors.r14_funnel(ctx)
     errors.r14_stash(ctx)
+    errors.r14_stopiteration_drivers(ctx)
     run.rule('R15', 'COMMIT-ORDER: commit points (checkpoint rename, dump descriptor, zip finalisation) come after the loop '
                     'over all resource streams on the normal path and are never reachable from an except / finally block')
     commits.r15_checkpoint_rename(ctx)
